@@ -94,6 +94,7 @@ def regen(ctx, build_dir=None):
     try:
         seps, names = tables(build_dir)
         ctx.gen("C08_Tables", tables_v(seps, names))
+        ctx.c08_char_names = names          # gen/c08_lib38.py resolves #\\name literals of lib/srfi/38.scm with it
     except Unsupported as e:
         ctx.broken("translator:C08_Tables", "sexp.c tables outside the handled shape: %s" % e)
         ctx.gen("C08_Tables", "(* translator failed closed: %s *)\nDefinition c08_tables_translation_failed : True := I.\n" % str(e).replace("*)", "* )"))
